@@ -281,7 +281,7 @@ func (e *env) pScQuit(id uint64) *pair {
 		method: side_chain_manager.APPROVE_QUIT_SIDE_CHAIN, args: func(s common.Address) []byte { return gov.ChainID(id, s) },
 		notify: "ApproveQuitSideChain", signKey: gov.SignKey(side_chain_manager.QUIT_SIDE_CHAIN, gov.U64(id)), reqKey: gov.KeySideChainQuit(id),
 		applied: func(b, a map[string]string) bool { _, ok := a[gov.KeySideChain(id)]; return !ok },
-		allowed: inSet(gov.KeySideChain(id), gov.KeySideChainQuit(id))}
+		allowed: inSet(gov.KeySideChain(id), gov.KeySideChainQuit(id), gov.KeySideChainUpdate(id))} // removing a chain also drops its pending update request (fix 2470786)
 }
 
 func (e *env) pRelReg(id uint64, list ...string) *pair {
@@ -794,7 +794,7 @@ func (x *explorer) requestObjectsChanged(nm *model, before, after map[string]str
 	}
 }
 
-func (x *explorer) run(depth int) mc.Stats {
+func (x *explorer) initial() state {
 	gw := gov.NewWorld()
 	gw.Genesis(x.e.vals)
 	w := &gov.Recorder{W: gw}
@@ -813,6 +813,27 @@ func (x *explorer) run(depth int) mc.Stats {
 	if len(init.M.consensus()) != x.e.N {
 		x.r.HarnessError("initial validator set %d != %d", len(init.M.consensus()), x.e.N)
 	}
+	return init
+}
+
+// replay re-executes one recorded operation list (--replay file) and reports what the oracle says about it.
+func (x *explorer) replay(ops []string) {
+	s := x.initial()
+	for i, op := range ops {
+		n, ok := x.step(s, op)
+		if !ok {
+			x.r.HarnessError("replay: op %d (%s) not applicable", i, op)
+		}
+		for _, v := range n.last {
+			v.detail["ops_after_setup"] = ops[:i+1]
+			x.r.Violation(v.key, v.detail)
+		}
+		s = n
+	}
+}
+
+func (x *explorer) run(depth int) mc.Stats {
+	init := x.initial()
 	return mc.BFS(mc.Config[state]{
 		Init:   []state{init},
 		Events: x.events,
@@ -830,8 +851,10 @@ func (x *explorer) run(depth int) mc.Stats {
 
 func main() {
 	r := ev.Start("C32", "model_checking")
-	r.Require("effect", "recorded-no-effect", "approval-rejected", "non-validator-approval-not-counted", "request-accepted",
-		"effect-triggered-by-non-validator-after-set-change")
+	if r.ReplayPath == "" {
+		r.Require("effect", "recorded-no-effect", "approval-rejected", "non-validator-approval-not-counted", "request-accepted",
+			"effect-triggered-by-non-validator-after-set-change")
+	}
 	polyenv.InstallHeightLedger()
 	type cfg struct{ n, level int }
 	var cfgs []cfg
@@ -858,6 +881,32 @@ func main() {
 				later = append(later, job{c, e, g})
 			}
 		}
+	}
+	if r.ReplayPath != "" {
+		var d struct {
+			Group string   `json:"group"`
+			N     int      `json:"N"`
+			Ops   []string `json:"ops_after_setup"`
+		}
+		if err := r.LoadReplay(&d); err != nil {
+			r.HarnessError("replay: %v", err)
+		}
+		e := newEnv(d.N)
+		polyenv.Setup(0, e.vals)
+		for _, g := range e.groups(2) {
+			if g.name == d.Group {
+				x := &explorer{r: r, e: e, g: g, pm: map[string]*pair{}, xm: map[string]*extra{}, effects: map[string]int{}}
+				for _, p := range g.pairs {
+					x.pm[p.name] = p
+				}
+				for _, ex := range g.extras {
+					x.xm[ex.name] = ex
+				}
+				x.replay(d.Ops)
+			}
+		}
+		r.Finish(map[string]any{"rule": "replay of one recorded operation list", "states": len(d.Ops) + 1, "transitions": len(d.Ops),
+			"traces_validated_against_impl": len(d.Ops), "vacuity_guard": "off (replay)"})
 	}
 	for _, j := range append(jobs, later...) {
 		c, e, g := j.c, j.e, j.g
